@@ -14,9 +14,28 @@ def enumerate_rows(prog, body, label_switch, classify_ret, start=0, stop_blocks=
     cfg = prog.cfg(body)
     idx = prog.idx(body)
     ret_defs_by_blk = {}
-    for kind, blk, i, d, obj in idx.defs.get(0, []):
-        if not d:
+    # the return place and the temporaries that are only ever *moved* into it (`_0 = move _r`, as left behind when a helper's
+    # `return x` was looked through): what such a temporary was last given on the path is what the path returns
+    chain, work = {0}, [0]
+    while work:
+        r = work.pop()
+        for kind, blk, i, d, obj in idx.defs.get(r, []):
+            if not d and kind == "assign" and obj.rv.k == "use" and obj.rv.ops and obj.rv.ops[0].place is not None \
+                    and not obj.rv.ops[0].place.proj and obj.rv.ops[0].k == "move":
+                L = obj.rv.ops[0].place.local
+                if L > body.arg_count and L not in chain and len([1 for x in idx.defs.get(L, []) if not x[3]]) > 1:
+                    chain.add(L)
+                    work.append(L)
+    for r in chain:
+        for kind, blk, i, d, obj in idx.defs.get(r, []):
+            if d:
+                continue
+            if kind == "assign" and obj.rv.k == "use" and obj.rv.ops and obj.rv.ops[0].place is not None \
+                    and not obj.rv.ops[0].place.proj and obj.rv.ops[0].place.local in chain:
+                continue        # the move along the chain itself
             ret_defs_by_blk.setdefault(blk, []).append((kind, i, obj))
+    for v in ret_defs_by_blk.values():
+        v.sort(key=lambda x: (x[1] is None, x[1] if x[1] is not None else 0))
     rows = []
     n = [0]
 
